@@ -99,6 +99,7 @@ def want(cfg, m, rng, tr, p):
 COMP = Component(
     spec="Cam", name="ContentAddressableMemory", build=build, methods=lambda cfg: METHODS,
     has_arg=lambda m: True, gen_arg=gen_arg, want=want, tracker=Tracker, module=__name__,
+    shadow=lambda cfg: METHODS,
     trace_extra=STEP_EXTRA, trace_extra_names=STEP_EXTRA_NAMES,
 )
 
